@@ -16,6 +16,7 @@ mod c12;
 mod c17;
 mod c18;
 mod c20;
+mod c19;
 mod util;
 
 fn main() {
@@ -44,6 +45,7 @@ fn main() {
         "c02" => c02::main(&args),
         "c18" => c18::main(&args),
         "c20" => c20::main(&args),
+        "c19" => c19::main(&args),
         other => {
             eprintln!("unknown property {other}");
             std::process::exit(2);
